@@ -229,8 +229,9 @@ def group_configs(group, shape, level='small', partner=False):
                 opts = [{}] if level == 'plain' or n == 0 else [{}, {(0, 0): ['Default = 7']}, {(0, n - 1): ['Default(expr = 1 + 2)']}]
                 for f in opts:
                     mk('%s|%s' % (t, sorted(f)), [t], f)
-        if level != 'plain' and shape.kind == 'struct' and shape.variants[0] == ('n', 2):
-            mk('texpr', ['Default(expression = Ty { f0: 1, f1: 2 })'])
+        if level != 'plain':
+            mk('texpr', ['Default(expression = Ty::make())'])
+            mk('texpr+new', ['Default(new, expression = Ty::make())'])
     elif group in ('Deref', 'DerefMut'):
         if union or shape.has_unit() or not shape.variants:
             return []
